@@ -520,6 +520,16 @@ def bi_range(ex, e):
 
 
 def bi_map(ex, e):
+    f = ex.ev(e.args[0])
+    if isinstance(f, SFunc) and f.kind == 'builtin' and f.name == 'str' and len(e.args) == 2:
+        seq = seq_term(ex, ex.ev(e.args[1]), e)
+        g = z3.Function('map_str', SeqVal, SeqVal)    # [str(x) for x in seq]
+        r = g(seq)
+        if not ex.spec_mode:
+            i = fresh('i', vl.Int)
+            ex.assume(z3.Length(r) == z3.Length(seq))
+            ex.assume(z3.ForAll([i], z3.Implies(z3.And(i >= 0, i < z3.Length(seq)), is_str(r[i]))))
+        return SGen(r)
     raise Unsupported('map()')
 
 
